@@ -248,8 +248,8 @@ class TimeArray(np.ndarray, TimeInterface):
     def __setitem__(self, key, val):
         # look at the units - convert the values to what they need to be (in
         # the base_unit) and then delegate to the ndarray.__setitem__
-        if not hasattr(val, '_conversion_factor'):
-            val *= self._conversion_factor
+        # the caller's array (or list) is not touched by the conversion
+        val = self._convert_if_needed(val)
         return np.ndarray.__setitem__(self, key, val)
 
     def _convert_if_needed(self,val):
